@@ -380,6 +380,8 @@ Definition check_derived_leaf (r' : routine) (x : string) (impl : impl_result) (
        (cmp_trees (S (ct_height m)) inexact
                   (filter (fun rho => counts_natural (S (ct_height m)) rho m) (points_of pts)) m t
         ++ cmp_params (S (ct_height m)) m t)%list
+   | Ok m, IErr cls => [if String.eqb cls "BartiqCompilationError" && undecided_but_violated (S (ct_height m)) (points_of pts) m
+                        then 0%nat else 1%nat]
    | res, IErr cls => [if String.eqb (err_class res) cls then 0%nat else 1%nat]
    | res, IOk _ => [1%nat]
    end,
